@@ -232,26 +232,28 @@ def flatten_class(steps, style):
 
 
 def int_printed_later(runs):
-    """Input class for flatten('last'): some column is printed as whole numbers only in a run k >= 1 while
-    another run that takes part in the merge cannot be represented in an integer column: an earlier run
-    prints a fractional / nan / inf value there or lacks the keyword, or a later run lacks the keyword
-    (e.g. Temp during an MD run followed by a minimization, or a thermo_style change)."""
+    """Input class for flatten('last'), per column: the names of the columns that are printed as whole numbers
+    only in a run k >= 1 while another run that takes part in the merge cannot be represented in an integer
+    column: an earlier run prints a fractional / nan / inf value there or lacks the keyword, or a later run
+    lacks the keyword (e.g. Temp during an MD run followed by a minimization, or a thermo_style change)."""
+    out = set()
     for k in range(1, len(runs)):
         rk = runs[k]
         for c, name in enumerate(rk['columns']):
-            if column_kind([row[c] for row in rk['tokens']]) != 'int':
+            if name in out or column_kind([row[c] for row in rk['tokens']]) != 'int':
                 continue
             for j in range(len(runs)):
                 rj = runs[j]
                 if j == k or not rj['rows']:
                     continue
                 if name not in rj['columns']:
-                    return True
+                    out.add(name)
+                    break
                 if j > k:
                     continue
                 cj = rj['columns'].index(name)
-                for row in rj['rows']:
-                    v = row[cj]
-                    if isinstance(v, float) and (not math.isfinite(v) or v != math.floor(v)):
-                        return True
-    return False
+                if any(isinstance(row[cj], float) and (not math.isfinite(row[cj]) or row[cj] != math.floor(row[cj]))
+                       for row in rj['rows']):
+                    out.add(name)
+                    break
+    return out
